@@ -234,6 +234,7 @@ def gen_scenario(batch_seed, i, tier):
             if rng.random() < 0.5:
                 argv.append('--compact')
         argv.append(content)
+        argv = opts.stylize(argv, rng.choice((0, rng.getrandbits(32))))
         sc.update(argv=core.enc(argv), points=None, sample_seed=rng.getrandbits(48), max_points=64 if tier == 'quick' else 256)
     elif mode == 'cli_refusal':
         content, mkw = opts.gen_symbol(rng, cli=True, seq=rng.random() < 0.2, maxlen=30)
